@@ -290,7 +290,7 @@ def check_sim_b(prop, tier, seed, level_rule):
     total, budget_s = BUDGET[prop][tier]
     log("%s %s: seed=%d runs=%d workers=%d" % (prop, tier, seed, total, NPROC))
     outdir = os.path.join(WORK, prop)
-    records, bad = run_workers(BIN_B, prop, seed, total, budget_s, outdir)
+    records, bad = run_workers(BIN_B, prop, seed, total, budget_s, outdir, ["--depth", "1"] if tier == "thorough" else None)
     if bad:
         for w, code, err in bad:
             log("HARNESS-ERROR: worker %s exited with %s: %s" % (w, code, err))
@@ -382,7 +382,8 @@ def check_sim_a(tier, seed):
     total, budget_s = BUDGET[prop][tier]
     log("%s %s: seed=%d runs=%d workers=%d" % (prop, tier, seed, total, NPROC))
     outdir = os.path.join(WORK, prop)
-    records, bad = run_workers(BIN_A, prop, seed, total, budget_s * 0.7, outdir)
+    depth_args = ["--depth", "1"] if tier == "thorough" else []
+    records, bad = run_workers(BIN_A, prop, seed, total, budget_s * 0.7, outdir, depth_args or None)
     if bad:
         for w, code, err in bad:
             log("HARNESS-ERROR: worker %s exited with %s: %s" % (w, code, err[-600:]))
@@ -395,7 +396,7 @@ def check_sim_a(tier, seed):
     salts = [1, 2] if tier == "quick" else [1, 2, 3, 4]
     sweep = {}
     for salt in salts:
-        recs, bad2 = run_workers(BIN_A, prop, seed, n_sweep, budget_s * 0.15, os.path.join(WORK, prop + "-sweep%d" % salt), ["--hash-salt", str(salt), "--single-thread", "--samples", "0"])
+        recs, bad2 = run_workers(BIN_A, prop, seed, n_sweep, budget_s * 0.15, os.path.join(WORK, prop + "-sweep%d" % salt), ["--hash-salt", str(salt), "--single-thread", "--samples", "0"] + depth_args)
         if bad2:
             for w, code, err in bad2:
                 log("HARNESS-ERROR: sweep worker %s exited with %s: %s" % (w, code, err[-600:]))
@@ -416,7 +417,7 @@ def check_sim_a(tier, seed):
             r = main_by_run.get(run) or sweep[salts[0]][run]
             if r.get("workload") is None:
                 # regenerate with its workload kept
-                rr, _ = run_workers(BIN_A, prop, seed, run + 1, 60, os.path.join(WORK, prop + "-one"), ["--samples", "1000000"])
+                rr, _ = run_workers(BIN_A, prop, seed, run + 1, 60, os.path.join(WORK, prop + "-one"), ["--samples", "1000000"] + depth_args)
                 r = [x for x in rr if x["run"] == run][0]
                 main_by_run[run] = r
                 records = [x if x["run"] != run else r for x in records]
